@@ -25,6 +25,9 @@ func C16(run *core.Run) {
 		every = 4
 	}
 	syncCheck(run, 4, 15, 2, every, syncOpts{})
+	// one element per election period: every element follows a silence of 61 slots (two election periods), so the period of an element elects from the previous element of its own branch, and a fork of two or three elements
+	// meets periods the node has already elected for on the branch it leaves
+	syncCheck(run, 4, 1, 30, every, syncOpts{label: "pass2(two election periods between elements) ", gap: 61})
 	stalePooledScenario(run)
 	staleFrontierScenario(run)
 	phantomHeaderScenario(run)
